@@ -26,6 +26,9 @@ def run(ctx):
         links += [{"a": ids[0], "ao": "+", "b": ids[1], "bo": "+"}, {"a": ids[1], "ao": "+", "b": ids[2], "bo": "+"}]
         chroms.append({"name": c, "bad": False, "elems": [{"k": "b", "ns": [ids[0]]}, {"k": "s", "ns": [ids[1]]}, {"k": "b", "ns": [ids[2]]}]})
     jobs.append(("default25", {"nodes": nodes, "links": links, "chroms": chroms}, "C06", ctx.seed, {"default_order": True}))
+    # scale: a bubble with many alleles in the middle of a chain (NO = lexicographic rank over three-digit counts)
+    from props.chain_common import scale_state
+    jobs.append(("scale-240", scale_state(240 if not ctx.thorough else 1100), "C06", ctx.seed * 1009 + 5, {}))
     finish(ctx, jobs, "C06")
     ctx.exhaustive = True
     ctx.assumptions += ["node ids are rGFA-style s<k>; every alternative allele has its own SN so that the reference contig is the plurality name of its component",
